@@ -283,3 +283,13 @@ package board
 //@   do inline r.setCapture(cp)
 //@   do inline r.setEnPassantChange(ep)
 //@   ensures [fields] r.fiftyCnt() == fc && r.castlingChange() == cc && r.capture() == cp && r.enPassantChange() == ep
+//@
+//@ # ---- the legality filter used by perft and the search: make the move, test the mover's king
+//@ scenario legalityFilter(b *Board, m move.Move)
+//@   props C01 C06
+//@   ghost p0 = pos(b)
+//@   requires repOK(b) && validPos(pos(b)) && pseudo(pos(b), uint16(m)) && hashOK(b) && 0 <= b.FiftyCnt
+//@   use movableFromPseudo(pos(b), uint16(m))
+//@   do r := b.MakeMove(m)
+//@   ensures [filter] b.InCheck(old(b.STM)) == !kingSafeAfter(p0, uint16(m))
+//@   ensures [legal]  legal(p0, uint16(m)) == !b.InCheck(old(b.STM))
